@@ -150,3 +150,7 @@ B("c07-prior-year-by-365-days", "C07", sub("policy_environment.py", "           
 B("c07-ten-day-hole", "C07", sub("transfers/rente.py", 'end_date="2007-04-29"', 'end_date="2007-04-19"', count=1), "R4")
 B("c13-conversion-precedence-reversed", "C13", [sub("time_conversion.py", "    for name in data_cols:\n        result.update(", "    from_data = {}\n    for name in data_cols:\n        from_data.update("), sub("time_conversion.py", "    return result\n\n\ndef _create_time_conversion_functions", "    return {**from_data, **result}\n\n\ndef _create_time_conversion_functions")], "Q2")
 T("c13-conversion-precedence-respelled", "C13", [sub("time_conversion.py", "    for name in data_cols:\n        result.update(", "    from_data = {}\n    for name in data_cols:\n        from_data.update("), sub("time_conversion.py", "    return result\n\n\ndef _create_time_conversion_functions", "    return {**result, **from_data}\n\n\ndef _create_time_conversion_functions")])
+B("c07-jahresanfang-second-of-january", "C07", sub("policy_environment.py", "        dt = dt.replace(month=1, day=1)\n", "        dt = dt.replace(month=1, day=2)\n"), "O")
+B("c07-vorjahr-two-years", "C07", sub("policy_environment.py", "date_last_year = subtract_years_from_date(date, years=1)", "date_last_year = subtract_years_from_date(date, years=2)"), "O6")
+B("c07-deviation-base-at-wrong-date", "C07", sub("policy_environment.py", "                        out_params[param] = _load_parameter_group_from_yaml(\n                            date,\n                            path_list[0],", "                        out_params[param] = _load_parameter_group_from_yaml(\n                            numpy.max(past_policies),\n                            path_list[0],"), "O6")
+T("c07-loader-locals-renamed", "C07", [sub("policy_environment.py", "past_policies", "earlier_entries", count=99), sub("policy_environment.py", "new_date", "day_before", count=99)])
